@@ -1,2 +1,8 @@
-import FatVerif.Model.Util
-def main : IO Unit := IO.println "stub"
+import FatVerif.Model.PureMain
+/-! Driver `fatmodel`: `fatmodel pure` (probe lines) | `fatmodel hist …` (operation histories). -/
+def main (args : List String) : IO UInt32 := do
+  match args with
+  | "pure" :: _ => FatVerif.PureMain.run
+  | _ =>
+    IO.eprintln "usage: fatmodel pure | fatmodel hist --prop Cxx"
+    return 2
